@@ -226,7 +226,7 @@ class TableCacheWorld:
                 st = "keep"       # restart on exactly what the killed process left behind
             one = {"state": st, "write_fault": wf,
                    "hashseed": rf.choice([0, 1, 2, 4242, 31337]) if swarm["vary_hashseed"] else 0,
-                   "pyflags": ["-O"] if rf.random() < 0.2 else [],
+                   "pyflags": [],     # -O is swept with a baseline taken under -O; the per-item baseline here is not
                    "items": sorted(rw.sample(self.small, k))}
             if not wf and rf.random() < 0.15:
                 one["crash_at"] = rf.choice(["regen_start", "table_write"])
@@ -247,9 +247,10 @@ class TableCacheWorld:
         # would overwrite
         for inc in trace["incarnations"]:
             if inc.get("sequential"):
-                key = core.digest_of([inc["items"], inc.get("entry")])
+                key = core.digest_of([inc["items"], inc.get("entry"), inc.get("pyflags") or []])
                 if key not in self.seq_base:
-                    rb = self._incarnate(inc["items"], False, 0, sequential=True, entry=inc.get("entry"))
+                    # same sequence, same interpreter flags, valid cache
+                    rb = self._incarnate(inc["items"], False, 0, sequential=True, entry=inc.get("entry"), pyflags=inc.get("pyflags") or ())
                     self.seq_base[key] = dict(zip(inc["items"], rb.get("digests") or []))
                     self._reset_durable_state()
         log = core.EventLog(keep=keep_events)
@@ -265,14 +266,14 @@ class TableCacheWorld:
             eff = inc["state"] if inc["state"] != "keep" else "keep(" + prev + ")"
             valid_before = self._cache_valid_now()
             before_files = set(os.listdir(self.pkg))
-            ov = [] if (inc.get("crash_at") or inc.get("entry")) else [(i + len(inc["items"])) % len(self.overlap_groups), (i + 3 + inc["items"][0]) % len(self.overlap_groups)]
+            ov = [] if (inc.get("crash_at") or inc.get("entry") or inc.get("pyflags")) else [(i + len(inc["items"])) % len(self.overlap_groups), (i + 3 + inc["items"][0]) % len(self.overlap_groups)]
             if inc.get("artefacts"):
                 if self.plant_artefacts():
                     stats["artefacts_planted"] += 1
             if inc["write_fault"]:
                 ov = ov[:1]           # every constructor regenerates there (0.5 s each)
             seq = bool(inc.get("sequential"))
-            base = self.seq_base[core.digest_of([inc["items"], inc.get("entry")])] if seq else self.baseline
+            base = self.seq_base[core.digest_of([inc["items"], inc.get("entry"), inc.get("pyflags") or []])] if seq else self.baseline
             r = self._incarnate(inc["items"], inc["write_fault"], inc.get("hashseed", 0), pyflags=inc.get("pyflags") or (),
                                 crash_at=inc.get("crash_at"), overlaps=ov, sequential=seq, entry=inc.get("entry"))
             if inc.get("entry"):
